@@ -389,13 +389,66 @@ class FakeProc:
         return None
 
 
-class FakeListener:
-    def __init__(self, v4, v6):
-        self.v4 = object() if v4 else None
-        self.v6 = object() if v6 else None
+class FakeSock:
+    """`socket.socket(family, type, proto)` as MultiListener uses it: records bind/listen, never fails."""
 
-    def add_handler(self, *a, **k):
+    def __init__(self, family=None, kind=None, proto=0, *a):
+        self.family = family
+        self.kind = kind
+        self.addr = None
+        self.backlog = None
+        self.opts = []
+
+    def bind(self, addr):
+        self.addr = addr
+
+    def listen(self, backlog):
+        self.backlog = backlog
+
+    def setsockopt(self, *a):
+        self.opts.append(a)
+
+    def getsockname(self):
+        return self.addr
+
+    def fileno(self):
+        return 2000 + int(self.family or 0)
+
+    def close(self):
         pass
+
+
+class SocketModuleProxy:
+    """stands in for the `socket` module inside client.py while a listener is bound:
+    everything is the real module's except the `socket` class."""
+
+    def __init__(self, real):
+        self._real = real
+        self.socket = FakeSock
+
+    def __getattr__(self, name):
+        return getattr(self._real, name)
+
+
+# listener configurations the methods use (client.main: '127.0.0.1'/'::1' with loopback_proxy_port, else
+# '0.0.0.0'/'::'; a family the user did not ask for gets None), same port for both families
+LISTEN_ADDRS = {'loop': (('::1', 12300), ('127.0.0.1', 12300)), 'wild': (('::', 12300), ('0.0.0.0', 12300))}
+
+
+def make_listener(client, v4, v6, listen):
+    """A REAL `client.MultiListener`, bound and listening as `client.main` does it, on fake sockets.
+    `v4`/`v6`: the user asked for a listener of that family."""
+    a6, a4 = LISTEN_ADDRS[listen]
+    p = Patches()
+    try:
+        p.set(client, 'socket', SocketModuleProxy(client.socket))
+        ml = client.MultiListener()
+        ml.bind(a6 if v6 else None, a4 if v4 else None)
+        ml.listen(10)
+        ml.print_listening("TCP redirector")
+    finally:
+        p.restore()
+    return ml
 
 
 class RecPipe:
@@ -437,7 +490,7 @@ class ClientRun:
             len(self.auto_nets), self.starts, len(self.plan), zlib.adler32(b''.join(self.plan)), 1 if self.handler else 0)
 
 
-def run_client(flags, wire_chunks, second_payload=None):
+def run_client(flags, wire_chunks, second_payload=None, listen='loop'):
     """The real `client._main` over `wire_chunks` (sync header + frames): handshake inside `_main`,
     then the Mux that `_main` created handles the remaining bytes (PING, ROUTES) with the real `onroutes`
     and the real `FirewallClient.start` on a recording pipe."""
@@ -481,7 +534,7 @@ def run_client(flags, wire_chunks, second_payload=None):
         p.set(client, 'Mux', RecMux)
         sys.stderr = io.StringIO()
         try:
-            client._main(FakeListener(v4, v6), None, fw, None, 'host', None, True, 32768,
+            client._main(make_listener(client, v4, v6, listen), None, fw, None, 'host', None, True, 32768,
                          None, None, False, auton, False, None, False, None)
             res.error = 'returned'
         except _Stop:
@@ -769,7 +822,8 @@ def split_lines(output):
     return list(io.BytesIO(output))
 
 
-def table_case(ctx, tool, lines, intents, flags, perline=True, label='table', verbose=0, real=False, regen=None):
+def table_case(ctx, tool, lines, intents, flags, perline=True, label='table', verbose=0, real=False, regen=None,
+               listen=None):
     """One routing table end to end.  `intents[i]` belongs to `lines[i]`.  `verbose`: server-side verbosity;
     `real`: the routing tool is a real child process on a real pipe; `regen`: how replay rebuilds a big table."""
     ssnet, client, server, helpers = _mods()
@@ -801,7 +855,10 @@ def table_case(ctx, tool, lines, intents, flags, perline=True, label='table', ve
     exp = [e for e in (expected_of(it) for it in intents) if e is not None] if tool != 'x' else []
     strict = all(it[0] != 'lenient' for it in intents)
     known_gap = [expected_of(it) for it in intents if it[0] == 'barehost' and expected_of(it)]
-    tcase = dict(stream='table', tool=tool, flags=flags, verbose=verbose, real=real, regen=regen,
+    if listen is None:
+        listen = ctx.rng.choice(['loop', 'wild'])
+    ctx.hist('listener:%s:v4=%s,v6=%s' % (listen, flags[0], flags[1]))
+    tcase = dict(stream='table', tool=tool, flags=flags, listen=listen, verbose=verbose, real=real, regen=regen,
                  table=None if regen else hexb(output), strict=strict,
                  expect=None if regen else [list(e) for e in exp], gap=[list(e) for e in known_gap])
     if status[0] == 'hang':
@@ -832,7 +889,7 @@ def table_case(ctx, tool, lines, intents, flags, perline=True, label='table', ve
         # cut the wire at random places: the client's reads are segments
         cuts = sorted(set(ctx.rng.randrange(1, len(wire)) for _ in range(ctx.rng.choice([0, 1, 3])))) if len(wire) > 1 else []
         chunks = [wire[a:b] for a, b in zip([0] + cuts, cuts + [len(wire)])]
-        cr = run_client(flags, chunks)
+        cr = run_client(flags, chunks, listen=listen)
         log.add('end ' + flags, head)
         log.ins.append(None)                     # `end` answers with two lines
         log.outs.append('client ' + cr.show())
@@ -969,8 +1026,12 @@ def delivery_oracle(ctx, tcase, exp, known_gap, strict, cr, nframes):
     if problems:
         ctx.violation(KEY_DELIV, case=tcase,
                       expected='plan = ROUTES, configured includes, %d advertised networks as 2,<w>,0,<ip>,0,0, excludes, then NSLIST; '
-                               'one fw.start() (server verbosity %d, routing tool %s)'
-                               % (len(exp), tcase['verbose'], 'a real child process' if tcase['real'] else 'in memory'),
+                               'one fw.start() (server verbosity %d, routing tool %s; client listeners: real MultiListener, %s addresses, '
+                               'IPv4 %s, IPv6 %s)'
+                               % (len(exp), tcase['verbose'], 'a real child process' if tcase['real'] else 'in memory',
+                                  {'loop': 'loopback', 'wild': 'wildcard'}[tcase['listen']],
+                                  'asked for' if tcase['flags'][0] == '1' else 'not asked for',
+                                  'asked for' if tcase['flags'][1] == '1' else 'not asked for'),
                       observed='; '.join(problems), kind='input')
 
 
@@ -981,7 +1042,7 @@ def client_case(ctx, flags, payload, second=False):
         cr = run_client(flags, [SYNC, frame(ssnet, b'')], second_payload=payload)
         log.add('client2 %s %s' % (flags, hexb(payload)), 'client ' + cr.show())
     else:
-        cr = run_client(flags, [SYNC + frame(ssnet, payload)])
+        cr = run_client(flags, [SYNC + frame(ssnet, payload)], listen='wild' if flags in ('111', '011') else 'loop')
         log.add('client %s %s' % (flags, hexb(payload)), 'client ' + cr.show())
     log.nontrivial = True
     ctx.count()
@@ -1075,6 +1136,10 @@ def gen_cases(ctx):
           b'192.168.1.0/24 dev wlan0  proto kernel  scope link  src 192.168.1.1\n']
     for v in (0, 1, 2):
         logs.append(table_case(ctx, 'i', t2, [('omit',), ('omit',), ('route', '192.168.1.0', 24)], '101', verbose=v, real=(v == 1)))
+    # every listener configuration the methods use: loopback pair, wildcard pair, v4 only, v6 only (real MultiListener)
+    for fl in ('111', '101', '011'):
+        for li in ('loop', 'wild'):
+            logs.append(table_case(ctx, 'i', t2, [('omit',), ('omit',), ('route', '192.168.1.0', 24)], fl, listen=li))
     logs.append(table_case(ctx, 'i', [], [], '101', real=True))
     logs.append(table_case(ctx, 'x', t2, [('omit',)] * 3, '101'))
     # every prefix length, with all host bits set, both tools
@@ -1087,7 +1152,8 @@ def gen_cases(ctx):
             else:
                 lines.append(dotted(a) + b' 0.0.0.0 ' + dotted(contiguous(n)) + b' U 0 0 0 eth0\n')
             intents.append(('route', dotted(a).decode(), n))
-        logs.append(table_case(ctx, tool, lines, intents, '111', verbose=1 if tool == 'i' else 2))
+        logs.append(table_case(ctx, tool, lines, intents, '111', verbose=1 if tool == 'i' else 2,
+                               listen='wild' if tool == 'i' else 'loop'))
     # the F17 witnesses, one per table so that each is located
     for ln in [b'10.0.0.0/8x dev eth0\n', b'a/b/c\n', b'300.1.1.0/24 dev eth0\n', b'10.0.0.0/8 dev \xe9th0\n', b'\x1c\n',
                b'10.0.0.0/-8 dev eth0\n', b'10.0.0.0/-' + b'9' * 320 + b' dev eth0\n', b'10.0.0.0/' + b'1' * 4301 + b'\n']:
@@ -1238,7 +1304,7 @@ def replay(ctx, rep):
         if status[0] != 'sent':
             return True, how + ' '.join(status)
         nframes = wire.count(struct.pack('!ccHH', b'S', b'S', 0, ssnet.CMD_ROUTES))
-        cr = run_client(case['flags'], [wire])
+        cr = run_client(case['flags'], [wire], listen=case.get('listen') or 'loop')
         if case.get('expect') is None and not regen:
             return bool(cr.error) or cr.starts != 1, how + 'client: ' + cr.show()
         problems = plan_problems(case['flags'], exp, [tuple(e) for e in (case.get('gap') or [])],
